@@ -13,11 +13,20 @@ from vf.props.e2e import outcome_label, spec_summary
 
 @st.composite
 def strategy(draw):
-    prof = Profile(vrl='mixed', max_frames=2, max_channels=3, max_rows=40, max_width=6,
-                   meta_kinds=('comment', 'zone', 'parameter', 'equipment'), max_meta=3, long_text=2000, noformat=1,
-                   nf_payload_max=300, units=False)
+    if draw(st.integers(0, 3)) == 0:
+        # structured array whose dtype coincides with the frame's (direct-slice path of the numpy wrapper) + window
+        prof = Profile(vrl='mixed', max_frames=1, max_channels=3, max_rows=40, max_width=4, casts=False,
+                       byte_orders=('<',), layouts=('C',), units=False, sources=('struct',), windows=True,
+                       upper_names=True)
+    else:
+        prof = Profile(vrl='mixed', max_frames=2, max_channels=3, max_rows=40, max_width=6,
+                       meta_kinds=('comment', 'zone', 'parameter', 'equipment'), max_meta=3, long_text=2000,
+                       noformat=1, nf_payload_max=300, units=False, sources=('inline', 'dict', 'struct'),
+                       windows=True, upper_names=True)
     spec = draw(file_specs(prof))
     rows = min(min_rows(lf) for lf in spec['lfs'])
+    w_ = spec.get('write') or {}
+    rows = (w_.get('to') or rows) - (w_.get('from') or 0)      # rows actually written
     vrl = spec['sul']['vrl']
     mode = draw(st.sampled_from(['none', 'one', 'divisor', 'non-divisor', 'non-divisor', 'non-divisor', 'rows', 'beyond']))
     ics = None
@@ -181,6 +190,7 @@ class C10(Property):
                                                                           f"a visible-record boundary"))
                     break
         rows = min((op['data']['shape'][0] for lf in spec['lfs'] for op in lf['ops'] if op['t'] == 'channel'), default=0)
+        rows = ((spec.get('write') or {}).get('to') or rows) - ((spec.get('write') or {}).get('from') or 0)
         rem = bool(ics) and rows % ics != 0
         nt = len(events) >= 3 and rem
         labels += ['flushes>=3'] if len(events) >= 3 else []
